@@ -76,16 +76,48 @@ Definition get_frame_roots (f : N) (st : rstate) : rstate * list root * bool :=
 (* Orderer.Reset -> resetEpochStore: dropEpochDB, then openEpochDB = Purge + a fresh epoch DB *)
 Definition open_epoch (st : rstate) : rstate := mkR [] (fst (purge (r_cache st))).
 
-(* NewStore + ApplyGenesis + Orderer.Bootstrap on an empty epoch: openEpochDB, then
-   processKnownRoots reads frame LastDecidedFrame+1 = 1 (and finds it empty).
-   None: makeCache calls crit (negative RootsFrames). *)
+Definition gfr (f : N) (st : rstate) : rstate := fst (fst (get_frame_roots f st)).
+
+(* The reads Orderer.Bootstrap makes (bootstrapElection -> processKnownRoots with
+   LastDecidedFrame = 0, no frame ever decided, and a dag index under which no root forkless-
+   causes another, as in the harness): GetFrameRoots(1); if non-empty GetFrameRoots(2); every
+   root of frame 2 is a round-1 voter and election.ProcessRoot reads the previous frame
+   (GetFrameRoots(1)) for it; then GetFrameRoots(3), and the first root of frame 3 (round 2)
+   reads GetFrameRoots(2) and fails the quorum sanity check, which ends the bootstrap.
+   An empty frame ends the scan. *)
+Definition boot_reads (st : rstate) : rstate :=
+  let '(st1, r1, _) := get_frame_roots 1 st in
+  match r1 with
+  | [] => st1
+  | _ =>
+      let '(st2, r2, _) := get_frame_roots 2 st1 in
+      match r2 with
+      | [] => st2
+      | _ =>
+          let st2' := fold_left (fun s _ => gfr 1 s) r2 st2 in
+          let '(st3, r3, _) := get_frame_roots 3 st2' in
+          match r3 with
+          | [] => st3
+          | _ => gfr 2 st3
+          end
+      end
+  end.
+
+(* NewStore + ApplyGenesis + Orderer.Bootstrap on an empty epoch: openEpochDB, then the
+   bootstrap reads (frame 1 only, it is empty).  None: makeCache calls crit (negative RootsFrames). *)
 Definition init (roots_num : N) (roots_frames : Z) : option rstate :=
   match new roots_num roots_frames with
-  | Some c => Some (fst (fst (get_frame_roots 1 (open_epoch (mkR [] c)))))
+  | Some c => Some (boot_reads (open_epoch (mkR [] c)))
   | None => None
   end.
 
-Inductive rop := RAdd (spf frame creator : N) (id : list N) | RGet (f : N) | RReset.
+(* a restart: a new Store (fresh cache, same configuration) and Orderer over the same main and
+   epoch databases, bootstrapped: openEpochDB purges the (empty) cache and re-opens the epoch DB *)
+Definition restart (st : rstate) : rstate :=
+  boot_reads (mkR (r_db st)
+    (mkCache [] 0 (c_max_weight (r_cache st)) (c_max_size (r_cache st)) false)).
+
+Inductive rop := RAdd (spf frame creator : N) (id : list N) | RGet (f : N) | RReset | RRestart.
 
 (* one step: new state and, for RGet, the list returned (with the crit flag) *)
 Definition rstep (st : rstate) (o : rop) : rstate * option (list root * bool) :=
@@ -93,6 +125,7 @@ Definition rstep (st : rstate) (o : rop) : rstate * option (list root * bool) :=
   | RAdd spf frame creator id => (add_root spf frame creator id st, None)
   | RGet f => let '(st', rr, cr) := get_frame_roots f st in (st', Some (rr, cr))
   | RReset => (open_epoch st, None)
+  | RRestart => (restart st, None)
   end.
 
 Fixpoint rrun (st : rstate) (ops : list rop) : rstate * list (option (list root * bool)) :=
